@@ -82,7 +82,7 @@ class Outcome:
 
 
 class Frame:
-    __slots__ = ('fn', 'env', 'facts', 'module', 'cls', 'depth', 'yields', 'effects', 'ret_facts')
+    __slots__ = ('fn', 'env', 'facts', 'module', 'cls', 'depth', 'yields', 'effects', 'ret_facts', 'mutated')
 
     def __init__(self, fn, env, facts, module, cls, depth):
         self.fn = fn
@@ -94,6 +94,7 @@ class Frame:
         self.yields = []
         self.effects = []
         self.ret_facts = []
+        self.mutated = set()      # local names whose value was mutated in place (method call, item / attribute store)
 
 
 FALL = ('fall',)     # block completed normally
@@ -215,7 +216,7 @@ class Evaluator:
         env = self._bind(fi, args, kwargs, facts, depth)
         if env is None:
             return T.raise_('TypeError'), facts
-        fr = Frame(fi, env, facts, fi.module, fi.cls, depth)
+        fr = Frame(fi, dict(env), facts, fi.module, fi.cls, depth)
         self._stack.append(key)
         try:
             if _is_generator(fi.node):
@@ -223,6 +224,10 @@ class Evaluator:
             res = self.block(fi.node.body, fr)
         finally:
             self._stack.pop()
+        # in-place mutation of an argument is visible to the caller (apply() writes it back to a plain variable)
+        self._param_mut = {q: fr.env[q] for q in fi.params if q in fr.mutated and q in fr.env and fr.env[q] != env.get(q, None)} \
+            if fr.mutated else {}
+        self._param_mut_fi = fi
         exits = list(fr.ret_facts)
         if res is FALL or _has_fall(res):
             exits.append(fr.facts)
@@ -236,6 +241,33 @@ class Evaluator:
         else:
             res = _strip_fall(res, T.NONE)
         return res, out_facts
+
+    def _write_back(self, fi, offset, node, fr):
+        """Arguments are passed by reference: what the callee did to a mutable argument in place is what the caller's
+        variable holds afterwards.  Only plain variables are written back; anything else is recorded as an effect."""
+        pm = getattr(self, '_param_mut', None)
+        if not pm or getattr(self, '_param_mut_fi', None) is not fi:
+            self._param_mut = {}
+            return
+        self._param_mut = {}
+        if node is None or not isinstance(node, ast.Call):
+            return
+        for q, val in pm.items():
+            i = fi.params.index(q)
+            arg = None
+            if offset and i == 0:
+                arg = node.func.value if isinstance(node.func, ast.Attribute) else None
+            elif 0 <= i - offset < len(node.args) and not any(isinstance(a, ast.Starred) for a in node.args[:i - offset + 1]):
+                arg = node.args[i - offset]
+            else:
+                for kw in node.keywords:
+                    if kw.arg == q:
+                        arg = kw.value
+            if isinstance(arg, ast.Name) and arg.id in fr.env:
+                fr.env[arg.id] = val
+                fr.mutated.add(arg.id)
+            elif arg is not None:
+                self.effects.append(('argument-mutated', fr.fn.qual if fr.fn else None, node.lineno, ast.unparse(arg)))
 
     def _construct(self, ci, args, kwargs, facts, depth):
         if ci.is_enum:
@@ -299,6 +331,13 @@ class Evaluator:
         _seq)."""
         for i, st in enumerate(stmts):
             res = self.stmt(st, fr)
+            if isinstance(st, ast.Assign) and (res is FALL or _has_fall(res)) and i + 1 < len(stmts):
+                names = [n.id for t in st.targets for n in ast.walk(t) if isinstance(n, ast.Name)]
+                if any(_is_dispatch(fr.env.get(n)) for n in names):
+                    rest = self._case_split(names, stmts[i + 1:], fr)
+                    if res is FALL:
+                        return rest
+                    return _replace_fall(res, rest)
             if res is FALL:
                 continue
             if not _has_fall(res):
@@ -383,8 +422,30 @@ class Evaluator:
         self.asserts.append((fr.fn.qual if fr.fn else None, st.lineno))
         return FALL
 
+    def _prune(self, v, fr, _depth=0):
+        """Drop alternatives of a case analysis that the current facts exclude (e.g. the KeyError tail of a table
+        look-up after an `if key not in table: exit` guard)."""
+        if not isinstance(v, tuple) or T.tag(v) != 'phi' or _depth > 40 or not fr.facts.items:
+            return v
+        c = self.decide(v[1], fr)
+        if c == T.TRUE:
+            return self._prune(v[2], fr, _depth + 1)
+        if c == T.FALSE:
+            return self._prune(v[3], fr, _depth + 1)
+        f0 = fr.facts
+        fr.facts = f0.add(c)
+        a = self._prune(v[2], fr, _depth + 1)
+        fr.facts = f0.add(T.not_(c))
+        b = self._prune(v[3], fr, _depth + 1)
+        fr.facts = f0
+        if a is v[2] and b is v[3]:
+            return v
+        return T.phi(v[1], a, b)
+
     def st_Assign(self, st, fr):
         v = self.expr(st.value, fr)
+        if _is_dispatch(v) and _has_raise(v):
+            v = self._prune(v, fr)
         r = self._maybe_raise(v)
         if r is not FALL and not _has_fall(r):
             return r
@@ -423,6 +484,7 @@ class Evaluator:
             base = target.value
             if isinstance(base, ast.Name) and base.id in fr.env and T.tag(fr.env[base.id]) == 'obj':
                 fr.env[base.id] = T.obj_set(fr.env[base.id], target.attr, v)
+                fr.mutated.add(base.id)
                 if not (fr.fn is not None and fr.fn.name == '__init__' and base.id == fr.fn.params[0]):
                     self.effects.append(('attr-store-local-object', fr.fn.qual if fr.fn else None,
                                          target.lineno, '%s.%s' % (base.id, target.attr)))
@@ -442,9 +504,11 @@ class Evaluator:
                     else:
                         pairs = [(k_, (v if k_ == key else v_)) for k_, v_ in cur[1]]
                     fr.env[base.id] = T.dct(pairs)
+                    fr.mutated.add(base.id)
                     return
             if isinstance(base, ast.Name) and base.id in fr.env:
                 fr.env[base.id] = T.opaque('subscript store on %s' % base.id)
+                fr.mutated.add(base.id)
             self.effects.append(('subscript-store', fr.fn.qual if fr.fn else None, target.lineno,
                                  ast.unparse(target)))
         elif isinstance(target, ast.Starred):
@@ -498,16 +562,19 @@ class Evaluator:
             if r1 is FALL and r2 is FALL:
                 return FALL
             return T.phi(c1, r1, r2)
-        st = ast.If(test=ast.Constant(value=True), body=body, orelse=orelse)
+        return self._branch(c, lambda: self.block(body, fr), lambda: self.block(orelse, fr), fr)
+
+    def _branch(self, c, k1, k2, fr):
+        """Evaluate continuation k1 under c and k2 under not c (environment refined by the condition), join."""
         env0, facts0 = dict(fr.env), fr.facts
         heap0 = dict(self.heap)
         fr.facts = facts0.add(c)
         self._refine(fr, c)
-        r1 = self.block(body, fr)
+        r1 = k1()
         env1, facts1, heap1 = fr.env, fr.facts, self.heap
         fr.env, fr.facts, self.heap = dict(env0), facts0.add(T.not_(c)), dict(heap0)
         self._refine(fr, T.not_(c))
-        r2 = self.block(orelse, fr)
+        r2 = k2()
         env2, facts2, heap2 = fr.env, fr.facts, self.heap
         f1 = r1 is FALL or _has_fall(r1)
         f2 = r2 is FALL or _has_fall(r2)
@@ -525,18 +592,44 @@ class Evaluator:
             return FALL
         return T.phi(c, r1, r2)
 
+    def _case_split(self, names, rest, fr, _depth=0):
+        """A variable that holds a case analysis over a symbolic key (table look-up): the rest of the block is
+        evaluated once per case, with the variable being that case's value (path-sensitive, like an if/elif chain)."""
+        if _depth < 24:
+            for n in names:
+                v = fr.env.get(n)
+                if _is_dispatch(v):
+                    c = self.decide(v[1], fr)
+                    if c == T.TRUE or c == T.FALSE:
+                        fr.env[n] = v[2] if c == T.TRUE else v[3]
+                        return self._case_split(names, rest, fr, _depth + 1)
+                    k = lambda: self._case_split(names, rest, fr, _depth + 1)
+                    return self._branch(c, k, k, fr)
+        return self.block(rest, fr)
+
     def st_Try(self, st, fr):
         handlers = st.handlers
-        is_backend = len(handlers) == 1 and isinstance(handlers[0].type, ast.Name) \
-            and handlers[0].type.id == 'NameError'
-        if is_backend:
-            if self.backend == 'secp':
+        # the handler a NameError (missing native back end) lands in: the first one that names it or is broad
+        ne = None
+        for h in handlers:
+            nm = _handler_names(h)
+            if nm is None or nm & {'NameError', 'Exception', 'BaseException'}:
+                ne = h
+                break
+        names_ne = _handler_names(ne) if ne is not None else set()
+        is_backend = ne is not None and names_ne is not None and 'NameError' in names_ne
+        if is_backend and self.backend == 'secp':
+            others = [h for h in handlers if h is not ne]
+            if not others:
                 r = self.block(st.body, fr)
                 if r is FALL:
                     return self.block(st.orelse, fr)
                 if _has_fall(r):
                     return _replace_fall(r, self.block(st.orelse, fr))
                 return r
+            # with the native library present NameError is never raised: the other handlers form an ordinary try
+            return self._generic_try(st, others, fr)
+        if is_backend and not st.finalbody:
             # ecdsa: run the body until a secp-only name is looked up, then the handler
             try:
                 for i, s in enumerate(st.body):
@@ -547,9 +640,12 @@ class Evaluator:
                             return T.opaque('partial exit inside backend try')
                         return r
             except NameErrorSignal:
-                return self.block(handlers[0].body, fr)
+                return self.block(ne.body, fr)
             # the body completed without touching a secp name: else-arm runs
             return self.block(st.orelse, fr)
+        return self._generic_try(st, handlers, fr)
+
+    def _generic_try(self, st, handlers, fr):
         # generic try (the repo has `except IndexError: return None` in list_get).  Conservative:
         # facts gained inside the body do not survive a handler that can fall through or return,
         # explicit raise leaves of a caught type continue in the handler, and a broad handler may also
@@ -558,7 +654,11 @@ class Evaluator:
             self._havoc_targets(st, fr, 'try/finally')
             return T.opaque('try/finally at line %d' % st.lineno)
         env0, facts0 = dict(fr.env), fr.facts
-        r = self.block(st.body, fr)
+        self.explicit_contracts = getattr(self, 'explicit_contracts', 0) + 1
+        try:
+            r = self.block(st.body, fr)
+        finally:
+            self.explicit_contracts -= 1
         env1, facts1 = fr.env, fr.facts
         out = r
         any_handler_continues = False
@@ -576,13 +676,13 @@ class Evaluator:
             any_handler_continues = any_handler_continues or hcont
 
             def repl(x, hres=hres, names=names, broad=broad):
-                if T.tag(x) == 'raise' and (broad or x[1] in names):
+                if T.tag(x) == 'raise' and (broad or x[1] in names or (x[1] == 'LibraryError' and names & _LIB_EXC)):
                     return hres
                 return x
             out = _map_leaves(out, repl) if out is not FALL else out
             changed = [v for k_, v in env1.items() if env0.get(k_) is not v]
             if broad:
-                implicit = _may_raise_implicitly(st.body)
+                implicit = _may_raise_implicitly(st.body) and not self._only_contract_calls(st.body)
             else:
                 implicit = any(_term_may_raise(x, names) for x in ([r] if r is not FALL else []) + changed)
             if implicit:
@@ -600,6 +700,16 @@ class Evaluator:
             return _replace_fall(out, self.block(st.orelse, fr))
         return out
 
+    def _only_contract_calls(self, body):
+        """Every statement is a bare call of a native-library function whose raises-unless contract is modelled, on plain
+        variables: nothing else in the body can raise."""
+        for s_ in body:
+            v = s_.value if isinstance(s_, (ast.Expr, ast.Assign, ast.Return)) else None
+            if not (isinstance(v, ast.Call) and isinstance(v.func, ast.Name) and v.func.id in self.secp_names
+                    and all(isinstance(a, (ast.Name, ast.Constant)) for a in v.args) and not v.keywords):
+                return False
+        return True
+
     def st_With(self, st, fr):
         for item in st.items:
             v = self.expr(item.context_expr, fr)
@@ -610,12 +720,18 @@ class Evaluator:
     def st_For(self, st, fr):
         it = self.expr(st.iter, fr)
         seq = _fixed_items(it)
+        tname = st.target.id if isinstance(st.target, ast.Name) else None
         if seq is not None and len(seq) <= UNROLL_BOUND and not st.orelse:
             acc = FALL
             body_ = _eliminate_continue(st.body)
-            for item in seq:
+            for idx, item in enumerate(seq):
                 self.assign(st.target, item, fr)
+                if tname is not None:
+                    fr.mutated.discard(tname)
                 r = self._loop_body(body_, fr)
+                if tname is not None and tname in fr.mutated:
+                    # the element was mutated in place: the container (or the variable it came from) sees it
+                    self._write_back_element(st.iter, idx, fr.env.get(tname), fr)
                 if r == 'break':
                     break
                 if r == 'continue' or r is FALL:
@@ -632,12 +748,78 @@ class Evaluator:
         m = self._append_only_loop(st, it, fr)
         if m:
             return FALL
+        # `for row in rows: row.append(E)` over a symbolic list of rows rewrites every row in place
+        if self._inplace_map_loop(st, it, fr):
+            return FALL
         # loop over a symbolic iterable: everything assigned inside is unknown afterwards
         self._havoc_targets(st, fr, 'loop over symbolic iterable at line %d' % st.lineno)
+        if tname is not None and _mutates_name(st.body, tname):
+            # elements mutated in place: the iterated container is unknown afterwards as well
+            for n in ast.walk(st.iter):
+                if isinstance(n, ast.Name) and n.id in fr.env:
+                    fr.env[n.id] = T.opaque('elements mutated in a loop at line %d' % st.lineno)
+                    fr.mutated.add(n.id)
         self._scan_loop_effects(st, fr)
         if _contains_return(st.body):
             return T.phi(T.raw_op('BOOL', T.opaque('loop')), T.opaque('return inside loop'), FALL)
         return FALL
+
+    def _write_back_element(self, iter_node, idx, val, fr):
+        if isinstance(iter_node, ast.Name) and iter_node.id in fr.env and T.tag(fr.env[iter_node.id]) in ('list', 'tuple') \
+                and idx < len(fr.env[iter_node.id][1]):
+            cur = fr.env[iter_node.id]
+            items = list(cur[1])
+            items[idx] = val
+            fr.env[iter_node.id] = (cur[0], tuple(items))
+            fr.mutated.add(iter_node.id)
+        elif isinstance(iter_node, (ast.Tuple, ast.List)) and idx < len(iter_node.elts) and isinstance(iter_node.elts[idx], ast.Name) \
+                and iter_node.elts[idx].id in fr.env:
+            fr.env[iter_node.elts[idx].id] = val
+            fr.mutated.add(iter_node.elts[idx].id)
+        else:
+            for n in ast.walk(iter_node):
+                if isinstance(n, ast.Name) and n.id in fr.env:
+                    fr.env[n.id] = T.opaque('element mutated in a loop')
+                    fr.mutated.add(n.id)
+
+    def _inplace_map_loop(self, st, it, fr):
+        body = st.body
+        if st.orelse or not body or not isinstance(st.target, ast.Name) or not isinstance(st.iter, ast.Name) \
+                or st.iter.id not in fr.env:
+            return False
+        tname = st.target.id
+        last = body[-1]
+        if not (isinstance(last, ast.Expr) and isinstance(last.value, ast.Call) and isinstance(last.value.func, ast.Attribute)
+                and last.value.func.attr == 'append' and isinstance(last.value.func.value, ast.Name)
+                and last.value.func.value.id == tname and len(last.value.args) == 1 and not last.value.keywords):
+            return False
+        if not all(isinstance(s_, ast.Assign) and all(isinstance(t_, ast.Name) and t_.id != tname for t_ in s_.targets) for s_ in body[:-1]):
+            return False
+        if _mutates_name(body[:-1], tname):
+            return False
+        if T.is_op(it, 'MAP') and it[5] == T.TRUE and it[6] == T.const('list'):
+            var, src, elem = it[2], it[4], it[3]
+        elif T.tag(it) == 'sym':
+            var = T.sym('each%d' % getattr(self, '_comp_depth', 0), **_elem_meta(it))
+            src, elem = it, var
+        else:
+            return False
+        saved = dict(fr.env)
+        fr.env[tname] = elem
+        for s_ in body[:-1]:
+            r = self.stmt(s_, fr)
+            if r is not FALL:
+                fr.env = saved
+                return False
+        val = self.expr(last.value.args[0], fr)
+        if _has_raise(val) or T.tag(val) == 'raise':
+            fr.env = saved
+            return False
+        new_elem = T.lst(list(elem[1]) + [val]) if T.tag(elem) == 'list' else T.raw_op('APPEND', elem, val)
+        fr.env = saved
+        fr.env[st.iter.id] = T.raw_op('MAP', var, new_elem, src, T.TRUE, T.const('list'))
+        fr.mutated.add(st.iter.id)
+        return True
 
     def _append_only_loop(self, st, it, fr):
         body = st.body
@@ -761,6 +943,10 @@ class Evaluator:
             return T.TRUE
         if T.not_(c) in fr.facts:
             return T.FALSE
+        for f in fr.facts:
+            # unit resolution: a disjunction whose other alternatives are all excluded
+            if T.is_op(f, 'OR') and c in f[2:] and all(d == c or T.not_(d) in fr.facts for d in f[2:]):
+                return T.TRUE
         k = T.tag(c)
         if T.is_op(c, 'NOT'):
             r = self.decide(c[2], fr)
@@ -1133,7 +1319,38 @@ class Evaluator:
         return T.cat(*parts) if parts else T.const('')
 
     def ex_Lambda(self, e, fr):
-        return T.opaque('lambda')
+        a = e.args
+        if a.vararg or a.kwarg or a.kwonlyargs or a.posonlyargs:
+            return T.opaque('lambda with star / keyword-only parameters')
+        key = '%s:%d:%d' % (fr.module.relpath if fr.module is not None else '?', e.lineno, e.col_offset)
+        if not hasattr(self, '_closures'):
+            self._closures = {}
+        self._closures[key] = (e, dict(fr.env), fr.module, fr.cls, fr.fn)
+        return ('closure', key)
+
+    def _apply_closure(self, callee, args, kwargs, fr):
+        e, env0, module, cls, fn = self._closures[callee[1]]
+        names = [x.arg for x in e.args.args]
+        env = dict(env0)
+        if len(args) > len(names):
+            return T.raise_('TypeError')
+        for n, v in zip(names, args):
+            env[n] = v
+        for k, v in kwargs.items():
+            if k not in names or k in names[:len(args)]:
+                return T.raise_('TypeError')
+            env[k] = v
+        defaults = e.args.defaults
+        for n, d in zip(names[len(names) - len(defaults):], defaults):
+            if n not in env or (n not in names[:len(args)] and n not in kwargs):
+                f0 = Frame(fn, dict(env0), fr.facts, module, cls, fr.depth + 1)
+                env[n] = self.expr(d, f0)
+        if any(n not in env for n in names):
+            return T.raise_('TypeError')
+        f1 = Frame(fn, env, fr.facts, module, cls, fr.depth + 1)
+        v = self.expr(e.body, f1)
+        fr.facts = f1.facts
+        return v
 
     def ex_Yield(self, e, fr):
         fr.yields.append(self.expr(e.value, fr) if e.value is not None else T.NONE)
@@ -1224,11 +1441,13 @@ class Evaluator:
                     fr.facts = f0
 
                 def build(i, acc):
+                    acc = list(acc)
+                    while i < len(out) and out[i][0] == T.TRUE:
+                        acc.append(out[i][1])
+                        i += 1
                     if i == len(out):
                         return T.dct(acc) if kind == 'dict' else self._lift_seq(list(acc), T.lst)
                     keep, el = out[i]
-                    if keep == T.TRUE:
-                        return build(i + 1, acc + [el])
                     return T.phi(keep, build(i + 1, acc + [el]), build(i + 1, acc))
                 return build(0, [])
             # comprehension over a comprehension: compose the bodies
@@ -1508,15 +1727,21 @@ class Evaluator:
             b = self.apply(callee[3], args, kwargs, fr, node)
             fr.facts = fa.meet(fr.facts)
             return T.phi(callee[1], a, b)
+        if k == 'closure':
+            return self._apply_closure(callee, args, kwargs, fr)
         if k == 'func':
             fi = self.p.functions[callee[1]]
+            self._param_mut = {}
             v, f2 = self._invoke(fi, args, kwargs, fr.facts, fr.depth + 1)
             fr.facts = f2
+            self._write_back(fi, 0, node, fr)
             return v
         if k == 'bound':
             fi = self.p.functions[callee[2]]
+            self._param_mut = {}
             v, f2 = self._invoke(fi, [callee[1]] + list(args), kwargs, fr.facts, fr.depth + 1)
             fr.facts = f2
+            self._write_back(fi, 1, node, fr)
             return v
         if k == 'cls':
             ci = self.p.classes[callee[1]]
@@ -1621,6 +1846,42 @@ def bounds_of(t, facts, _depth=0):
     return lo, hi
 
 
+def _is_dispatch(v):
+    """Phi chain whose conditions all compare one symbolic key with constants (a table look-up by that key)."""
+    if not isinstance(v, tuple) or T.tag(v) != 'phi':
+        return False
+    key = None
+    n = 0
+    while isinstance(v, tuple) and T.tag(v) == 'phi' and n < 40:
+        c = v[1]
+        if not T.is_op(c, 'EQ'):
+            return False
+        a, b = c[2], c[3]
+        k = b if T.is_const(a) else (a if T.is_const(b) else None)
+        if k is None or (key is not None and k != key):
+            return False
+        key = k
+        v = v[3]
+        n += 1
+    return n >= 1
+
+
+def _mutates_name(stmts, name):
+    """Do the statements mutate the object bound to `name` in place (method call, item or attribute store)?"""
+    for s_ in stmts:
+        for n in ast.walk(s_):
+            if isinstance(n, ast.Call) and isinstance(n.func, ast.Attribute) and n.func.attr in X.MUTATOR_NAMES \
+                    and isinstance(n.func.value, ast.Name) and n.func.value.id == name:
+                return True
+            if isinstance(n, (ast.Attribute, ast.Subscript)) and isinstance(n.ctx, (ast.Store, ast.Del)):
+                root = n.value
+                while isinstance(root, (ast.Attribute, ast.Subscript)):
+                    root = root.value
+                if isinstance(root, ast.Name) and root.id == name:
+                    return True
+    return False
+
+
 def _walk_phi_any(t, pred):
     """Does any leaf of the Phi DAG satisfy pred?  (memoised by node identity: DAGs are shared heavily)"""
     seen = set()
@@ -1646,26 +1907,37 @@ def _ends_with_continue(stmts):
     return bool(stmts) and isinstance(stmts[-1], ast.Continue)
 
 
-def _eliminate_continue(stmts):
-    """Rewrite `if c: ...; continue` followed by more statements into `if c: ... else: <rest>` (structured form),
-    so that the branch that ends the iteration early keeps its assignments at the join."""
-    out = []
-    for i, s_ in enumerate(stmts):
-        if isinstance(s_, ast.Continue):
-            return out
-        if isinstance(s_, ast.If):
-            body, orelse = _eliminate_continue(s_.body), _eliminate_continue(s_.orelse)
-            rest = _eliminate_continue(stmts[i + 1:])
-            if _ends_with_continue(s_.body) and not _contains_break_continue(ast.Module(body=orelse + rest, type_ignores=[])):
-                new = ast.If(test=s_.test, body=body or [ast.Pass()], orelse=orelse + rest)
-                out.append(ast.copy_location(new, s_))
-                return out
-            if _ends_with_continue(s_.orelse) and not _contains_break_continue(ast.Module(body=body + rest, type_ignores=[])):
-                new = ast.If(test=s_.test, body=body + rest or [ast.Pass()], orelse=orelse or [ast.Pass()])
-                out.append(ast.copy_location(new, s_))
-                return out
-        out.append(s_)
-    return out
+def _contains_continue(node):
+    """`continue` belonging to the current loop (not to a nested loop)."""
+    stack = [node]
+    while stack:
+        n = stack.pop()
+        if isinstance(n, ast.Continue):
+            return True
+        if isinstance(n, (ast.For, ast.While, ast.FunctionDef, ast.Lambda)) and n is not node:
+            continue
+        stack.extend(ast.iter_child_nodes(n))
+    return False
+
+
+def _eliminate_continue(stmts, k=None, _budget=None):
+    """Structured form of a loop body: `continue` ends the iteration, so the statements that follow an `if` containing
+    one are moved into the paths of that `if` which do not continue (continuation-passing rewrite; statements are
+    shared, not copied)."""
+    budget = [200] if _budget is None else _budget
+    k = [] if k is None else k
+    if not stmts:
+        return k
+    s_, rest = stmts[0], stmts[1:]
+    if isinstance(s_, ast.Continue):
+        return []
+    budget[0] -= 1
+    if isinstance(s_, ast.If) and _contains_continue(s_) and budget[0] > 0:
+        after = _eliminate_continue(rest, k, budget)
+        new = ast.If(test=s_.test, body=_eliminate_continue(s_.body, after, budget) or [ast.Pass()],
+                     orelse=_eliminate_continue(s_.orelse, after, budget))
+        return [ast.copy_location(new, s_)]
+    return [s_] + _eliminate_continue(rest, k, budget)
 
 
 def _has_fall(t):
@@ -1708,6 +1980,8 @@ def _handler_names(h):
     return {ast.unparse(h.type).split('.')[-1]}
 
 
+_LIB_EXC = {'ValueError', 'AssertionError', 'MalformedPointError', 'Libsecp256k1Exception', 'RuntimeError', 'Exception',
+            'BaseException', 'InvalidKeyError'}
 _RAISING_OPS = {
     'IndexError': {'GETITEM'}, 'KeyError': {'GETITEM', 'DICTGET'}, 'LookupError': {'GETITEM'},
     'ValueError': {'INTCAST', 'FROMHEX', 'INDEX', 'B58DEC', 'EXTCALL', 'METHOD'},
